@@ -122,6 +122,7 @@ def gen_case(rng, params, idx):
             kw = [{"n": k, "t": rng.choice(pool), "req": rng.random() < 0.6} for k in sorted(kwn)]
             m = {"mid": i, "pos": pos, "kw": kw, "prio": rng.choice([0, 0, 0, 1, -1]), "kind": "leaf"}
         methods.append(m)
+    gen.strict_first(rng, methods, 0.15)
     return {"hier": hier, "methods": methods, "npos": npos, "exh": False,
             "callseed": rng.randrange(1 << 30)}
 
